@@ -747,4 +747,124 @@ theorem secLoad_sim (c : Cls) (enc : Enc) (img : Bytes) (k : Nat) (kind : Stream
     rw [hPf, eP]
     exact .zero rfl (by constructor <;> rfl)
 
+/-! ### the section loop and the name resolution in both runs -/
+
+theorem secLoad_index (c : Cls) (enc : Enc) (tr : List Trans) (ls : LoadSt) (hdrOff : Int) (isLazy : Bool)
+    (idx : Nat) : (secLoad c enc tr ls hdrOff isLazy idx).2.index = idx := by
+  rw [secLoad_eq]
+  split
+  · rfl
+  · split
+    · exact (secGetData_sameHdr c tr _ _).index.trans (by simp [secHdrOnly, secB0])
+    · simp [secHdrOnly, secB0]
+
+/-- section relation used in the lists: `SecRel` plus the same index -/
+def SecRelI (f : Bool) (bp bf : SecBuf) : Prop := SecRel f bp bf ∧ bp.index = bf.index
+
+theorem loadSectionsLoop_sim (c : Cls) (enc : Enc) (img : Bytes) (k : Nat) (kind : StreamKind)
+    (hlen : img.length < 9223372036854775808) (isLazy : Bool) (shoff : Int) (entsize : Nat) :
+    ∀ (n i : Nat) (lsp lsf : LoadSt) (accp accf : List SecBuf), Sim2 img k kind lsp lsf →
+      ListRel (SecRelI lsp.st.fail) accp accf →
+      Sim2 img k kind (loadSectionsLoop c enc [] isLazy shoff entsize n i lsp accp).1
+        (loadSectionsLoop c enc [] isLazy shoff entsize n i lsf accf).1 ∧
+      ListRel (SecRelI (loadSectionsLoop c enc [] isLazy shoff entsize n i lsp accp).1.st.fail)
+        (loadSectionsLoop c enc [] isLazy shoff entsize n i lsp accp).2
+        (loadSectionsLoop c enc [] isLazy shoff entsize n i lsf accf).2 := by
+  intro n
+  induction n with
+  | zero =>
+    intro i lsp lsf accp accf hs hacc
+    exact ⟨hs, hacc.reverse⟩
+  | succ n ih =>
+    intro i lsp lsf accp accf hs hacc
+    rw [loadSectionsLoop_succ, loadSectionsLoop_succ]
+    obtain ⟨h1, h2⟩ := secLoad_sim c enc img k kind hlen lsp lsf hs
+      (shoff + (Int.ofNat i) * (Int.ofNat entsize)) isLazy i
+    apply ih _ _ _ _ _ h1
+    refine .cons ⟨h2, by rw [secLoad_index, secLoad_index]⟩ ?_
+    exact hacc.mono (fun a b hab => ⟨hab.1.mono (secLoad_fail_mono c enc lsp _ isLazy i), hab.2⟩)
+
+/-- the name a section gets from the string table -/
+def nameOf (strtab b : SecBuf) : Bytes :=
+  match getString strtab b.nameOff with
+  | .ok (some s) => s
+  | _ => b.name
+
+theorem withName_eq (strtab b : SecBuf) : withName strtab b = { b with name := nameOf strtab b } := by
+  unfold withName nameOf
+  cases getString strtab b.nameOff with
+  | error e => rfl
+  | ok r => cases r <;> rfl
+
+theorem SecRelI.name {f : Bool} {bp bf : SecBuf} (h : SecRelI f bp bf) (s t : Bytes) :
+    SecRelI f { bp with name := s } { bf with name := t } := by
+  refine ⟨?_, h.2⟩
+  cases h.1 with
+  | zero hf hz => exact .zero hf ⟨hz.stype, hz.size, hz.offset, hz.nameOff, hz.flags, hz.addr, hz.link,
+      hz.info, hz.addrAlign, hz.entSize, hz.data⟩
+  | never hs hd hx => exact .never ⟨hs.stype, hs.size, hs.offset, hs.nameOff, hs.flags, hs.addr, hs.link,
+      hs.info, hs.addrAlign, hs.entSize⟩ hd hx
+  | both hs hd hl hc hn => exact .both ⟨hs.stype, hs.size, hs.offset, hs.nameOff, hs.flags, hs.addr, hs.link,
+      hs.info, hs.addrAlign, hs.entSize⟩ hd hl hc hn
+
+/-- the name resolution step as a pure function (the string lookups cannot fault: C01) -/
+def namesPure (c : Cls) (enc : Enc) (tr : List Trans) (hdr : Bytes) (ls : LoadSt) (secs : List SecBuf) :
+    LoadSt × List SecBuf :=
+  if Hdr.e_shstrndx c enc hdr == BitVec.ofNat 16 SHN_UNDEF then (ls, secs) else
+  match secs[(Hdr.e_shstrndx c enc hdr).toNat]? with
+  | none => (ls, secs)
+  | some strtab =>
+    ((secGetData c tr ls strtab).1,
+     (secs.set (Hdr.e_shstrndx c enc hdr).toNat (secGetData c tr ls strtab).2).map
+        (withName (secGetData c tr ls strtab).2))
+
+theorem loadNamesK_eq (c : Cls) (enc : Enc) (tr : List Trans) (hdr : Bytes) (ls : LoadSt)
+    (secs : List SecBuf) (k : LoadSt × List SecBuf → M LoadRes) (img : Bytes) (kind : StreamKind)
+    (hs : StOk tr img kind ls) (hsecs : ∀ b ∈ secs, LoadedSec tr b img) :
+    loadNamesK c enc tr hdr ls secs k = k (namesPure c enc tr hdr ls secs) := by
+  unfold loadNamesK namesPure
+  by_cases h1 : (Hdr.e_shstrndx c enc hdr == BitVec.ofNat 16 SHN_UNDEF) = true
+  · rw [if_pos h1, if_pos h1]
+  · rw [if_neg h1, if_neg h1]
+    cases hget : secs[(Hdr.e_shstrndx c enc hdr).toNat]? with
+    | none => rfl
+    | some strtab =>
+      have hmem : strtab ∈ secs := List.mem_of_getElem? hget
+      obtain ⟨-, h2, -⟩ := secGetData_spec c tr ls strtab img kind hs (hsecs _ hmem)
+      dsimp only
+      rw [resolveNames_eq _ h2.bufOk]
+      rfl
+
+theorem namesPure_sim (c : Cls) (enc : Enc) (hdr : Bytes) (img : Bytes) (k : Nat) (kind : StreamKind)
+    (hlen : img.length < 9223372036854775808) (lsp lsf : LoadSt) (secsp secsf : List SecBuf)
+    (hs : Sim2 img k kind lsp lsf) (hrel : ListRel (SecRelI lsp.st.fail) secsp secsf)
+    (hip : ∀ b ∈ secsp, LoadedSec [] b (img.take k)) (hif : ∀ b ∈ secsf, LoadedSec [] b img) :
+    Sim2 img k kind (namesPure c enc [] hdr lsp secsp).1 (namesPure c enc [] hdr lsf secsf).1 ∧
+    ListRel (SecRelI (namesPure c enc [] hdr lsp secsp).1.st.fail)
+      (namesPure c enc [] hdr lsp secsp).2 (namesPure c enc [] hdr lsf secsf).2 := by
+  have hlk := take_length_le img k
+  unfold namesPure
+  split
+  · exact ⟨hs, hrel⟩
+  · rcases hrel.getElem? (Hdr.e_shstrndx c enc hdr).toNat with ⟨e1, e2⟩ | ⟨bp, bf, e1, e2, hr⟩
+    · rw [e1, e2]; exact ⟨hs, hrel⟩
+    · rw [e1, e2]
+      dsimp only
+      have ip := hip bp (List.mem_of_getElem? e1)
+      have jf := hif bf (List.mem_of_getElem? e2)
+      obtain ⟨pP, fP⟩ := secGetData_pure c lsp bp (img.take k) hs.p.data ip (by omega)
+      obtain ⟨pF, fF⟩ := secGetData_pure c lsf bf img hs.f.data jf hlen
+      have sP := secGetData_spec c [] lsp bp (img.take k) kind hs.p ip
+      have sF := secGetData_spec c [] lsf bf img kind hs.f jf
+      have rel1 := getDataPure_rel hr.1 ip jf hlen
+      rw [← pP, ← pF] at rel1
+      refine ⟨⟨sP.1, sF.1, fun hx => by rw [fP]; rw [fF] at hx; exact hs.fail hx⟩, ?_⟩
+      rw [fP]
+      have hidx : (secGetData c [] lsp bp).2.index = (secGetData c [] lsf bf).2.index := by
+        rw [(secGetData_sameHdr c [] lsp bp).index, (secGetData_sameHdr c [] lsf bf).index]; exact hr.2
+      refine (hrel.set _ (⟨rel1, hidx⟩ : SecRelI _ _ _)).map _ _ ?_
+      intro a b hab
+      rw [withName_eq, withName_eq]
+      exact hab.name _ _
+
 end ElfioVerif.C17
